@@ -37,6 +37,27 @@ More == <<
 
 Full == Core \o Wrappers \o More
 
+\* binary string payloads (character codes; 97 = 'a', 98 = 'b'): a NUL byte at the start, in the
+\* middle, at the end, several in a row, the one-character string "\0"; bytes that C-string or
+\* signed-char handling could mangle (0xFF, 0x80, '\n'); as scalars, inside a vector<string>, inside
+\* nested vectors; the const char* overload on the same payloads (its contract is strlen); and a
+\* few plain items to sit between them
+Nul == <<
+  [t |-> "bstr",  v |-> <<0, 97, 98>>],
+  [t |-> "bstr",  v |-> <<97, 0, 98>>],
+  [t |-> "bstr",  v |-> <<97, 98, 0>>],
+  [t |-> "bstr",  v |-> <<97, 0, 0, 98>>],
+  [t |-> "bstr",  v |-> <<0>>],
+  [t |-> "bstr",  v |-> <<255, 128, 10, 97>>],
+  [t |-> "bstr",  v |-> <<>>],
+  [t |-> "vbs",   v |-> << <<0>>, <<>>, <<97, 0>>, <<98>> >>],
+  [t |-> "vvbs",  v |-> << << <<0, 98>>, <<>> >>, <<>>, << <<255>> >> >>],
+  [t |-> "cstrb", v |-> <<97, 0, 98>>],
+  [t |-> "cstrb", v |-> <<0>>],
+  [t |-> "cstrb", v |-> <<255, 128, 10>>],
+  [t |-> "u8",    v |-> 7],
+  [t |-> "str",   v |-> "ab"] >>
+
 \* what a pre-populated destination holds: longer than (LongPre) / as short as possible but not empty
 \* (ShortPre) compared with every value of its type in the universes
 LongPre(T) ==
@@ -45,6 +66,7 @@ LongPre(T) ==
     [] T = "vb"  -> <<7, 7, 7, 7, 7>>
     [] T = "vs"  -> <<"qq", "qq", "qq", "qq">>
     [] T = "vvi" -> << <<9, 9>>, <<9, 9>>, <<9, 9>> >>
+    [] T = "vvs" -> << << "qq", "qq", "qq" >>, << "qq" >>, << "qq" >>, << "qq" >> >>
     [] OTHER     -> 0
 ShortPre(T) ==
   CASE T = "str" -> "z"
@@ -52,5 +74,6 @@ ShortPre(T) ==
     [] T = "vb"  -> <<7>>
     [] T = "vs"  -> <<"qq">>
     [] T = "vvi" -> << <<9, 9>> >>
+    [] T = "vvs" -> << << "qq" >> >>
     [] OTHER     -> 0
 ===============================================================================
